@@ -30,6 +30,9 @@ RULE = (
     "beam splitter acted on modes with N_tot >= 1 and unequal occupations or a superposition of different totals; "
     "distinct = hash of the program."
 )
+from pw_verif.props._machine import HISTORY_NOTE, SURVIVOR_NOTE  # noqa: E402,F401
+
+RULE += HISTORY_NOTE
 ASSUMPTIONS = ["reference self-tests passed", "photon number per mode <= 3 before the mesh", "beam splitter generator as documented: exp(i eta (a+b + a b+))"]
 
 
